@@ -245,6 +245,21 @@ func (rn *runner) marshalCase(t *Target, name string, ref *dynamicpb.Message, la
 		Note("populate failed for " + t.where(name) + ": " + err.Error())
 		return
 	}
+	if rn.prop == "C05" && rn.r.Chance(1, 6) {
+		// the message is sized / marshaled, then changed IN PLACE (nested runtime-owned messages included), then written
+		// with MarshalTo into a larger buffer: the bytes must be those of the current contents
+		defer func() {
+			var log []string
+			safeCall(func() { m.(FM).Marshal(); t.runtimeSizeMarshal(m) })
+			for k := 1 + rn.r.Intn(3); k > 0; k-- {
+				log = append(log, mutateStruct(rn.r, reflect.ValueOf(m)))
+			}
+			if sig, what, want, got := rn.marshalToNoSize(t, name, m); sig != "" {
+				desc := map[string]interface{}{"type": t.where(name), "case": label + ", then Marshal, runtime Size+Marshal, " + strings.Join(log, ", ") + ", MarshalTo(larger buffer)"}
+				Violation("C05", "marshal", "after-mutation/"+sig, what+" (a value is altered / dropped on the wire)", desc, want, got)
+			}
+		}()
+	}
 	if rn.r.Chance(1, 3) {
 		tweak(rn.r, reflect.ValueOf(m), 0)
 	}
@@ -1523,6 +1538,37 @@ func mutateStruct(r *prng.Rng, v reflect.Value) string {
 
 type resetter interface{ Reset() }
 
+// marshalToNoSize: MarshalTo into a sentinel-filled buffer with slack, without calling Size() first; the bytes written
+// must be those of a fresh deep copy's Marshal and nothing beyond them may be touched.
+func (rn *runner) marshalToNoSize(t *Target, name string, m interface{}) (sig, what, want, got string) {
+	md := t.desc(name)
+	cp := t.deepCopy(name, m)
+	if cp == nil {
+		return
+	}
+	exp, err := cp.(FM).Marshal()
+	if err != nil {
+		return
+	}
+	dest := bytes.Repeat([]byte{0xA5}, len(exp)+40)
+	var terr error
+	if p := safeCall(func() { terr = m.(FM).MarshalTo(dest) }); p != "" {
+		return "marshalto-larger-buffer-panic", "MarshalTo() into a buffer larger than Size() panicked", "no panic", p
+	}
+	if terr != nil {
+		return
+	}
+	if !sameModuloMaps(md, dest[:len(exp)], exp) {
+		return "marshalto-larger-buffer-differs", "MarshalTo() into a larger buffer (no Size() call before it) wrote bytes that differ from marshaling a fresh deep copy of the current contents", hx(exp), hx(dest[:len(exp)])
+	}
+	for _, c := range dest[len(exp):] {
+		if c != 0xA5 {
+			return "marshalto-larger-buffer-overrun", "MarshalTo() wrote beyond the encoding of the message", hx(exp), hx(dest)
+		}
+	}
+	return
+}
+
 func (rn *runner) history(t *Target, name string, steps int) {
 	md := t.desc(name)
 	m, _ := t.build(name, randMessage(rn.r, md, genOpts{requiredAlways: true}))
@@ -1558,8 +1604,18 @@ func (rn *runner) history(t *Target, name string, steps int) {
 	}
 	for i := 0; i < steps; i++ {
 		Journal(fmt.Sprintf("C09 history %s %s", t.where(name), strings.Join(log, " ; ")))
-		op := rn.r.Intn(11)
+		op := rn.r.Intn(12)
 		switch op {
+		case 11:
+			// MarshalTo into a buffer that is LARGER than needed (a pooled / pre-sized scratch buffer), with no Size() call
+			// of the caller in between: whatever sizes the code remembers from earlier calls are stale by now
+			log = append(log, "MarshalTo(larger buffer, no Size() first)")
+			desc := map[string]interface{}{"type": t.where(name), "history": strings.Join(log, " ; ")}
+			if sig, what, want, got := rn.marshalToNoSize(t, name, m); sig != "" {
+				Violation("C09", "histories", "stale-state/"+sig, what, desc, want, got)
+				Count("histories", fmt.Sprint(desc), "stale", i, true)
+				return
+			}
 		case 10:
 			// MarshalTo into a buffer the caller keeps reusing: it still holds the previous output (or 0xA5)
 			log = append(log, "MarshalTo(reused buffer)")
